@@ -118,11 +118,20 @@ def grep_escape_hatches():
     """No Admitted / Axiom / Parameter / ... anywhere; Variable / Hypothesis only
     inside sections."""
     bad = []
+    # the development = the files of _CoqProject (what `make` builds) + the property files;
+    # a .v file that is in neither is not part of any theorem's dependencies
+    listed = set()
+    for line in open(os.path.join(COQ, '_CoqProject')):
+        line = line.strip()
+        if line.endswith('.v'):
+            listed.add(os.path.normpath(os.path.join(COQ, line)))
     for root, _, files in os.walk(os.path.join(COQ, 'theories')):
         for f in files:
             if not f.endswith('.v'):
                 continue
             path = os.path.join(root, f)
+            if os.path.normpath(path) not in listed and os.path.basename(root) != 'Props':
+                continue
             depth = 0
             text = open(path).read()
             # strip comments (non-nested is enough for this development)
